@@ -76,3 +76,26 @@ Definition unmarshal_all (kind : Z) (f : list Z) (offs : list Z)
     | None => None
     | Some (n, ver, err, m, _) => Some (n, ver, err, match m with Some p => p | None => [] end)
     end) offs).
+
+(** repeated Unmarshal through ONE AtToReader(f, off) -- the frames read as a stream --
+    until the first error or [count] frames: [(n, version, err, payload)] per call *)
+Fixpoint stream_file (count : nat) (kind : Z) (f : list Z) (s : sr)
+  : option (list (Z * list Z * option perr * list Z)) :=
+  match count with
+  | O => Some []
+  | S k =>
+      match Unmarshal (k_dec kind) (fread_r f) grow_default (file_fuel f) s with
+      | None => None
+      | Some (n, ver, err, m, s') =>
+          let step := (n, ver, err, match m with Some p => p | None => [] end) in
+          match err with
+          | Some _ => Some [step]
+          | None => match stream_file k kind f s' with
+                    | Some r => Some (step :: r)
+                    | None => None
+                    end
+          end
+      end
+  end.
+
+Definition StreamAt (kind : Z) (f : list Z) (off : Z) (count : nat) := stream_file count kind f (AtToReader off).
